@@ -112,7 +112,26 @@ theorem place_slot (h : HS) (sl : List (Option HS)) (i : Nat) :
 
 theorem inv_make (e : EP) (s : Spec) (hi : Inv e) : Inv (make e s).1 := by
   obtain ⟨h1, h2, h3, h4⟩ := hi
-  simp only [make]
+  by_cases hc : e.closed = true
+  · -- a closed endpoint: the handler waits for its close, nothing else changes
+    simp only [make, hc, if_true]
+    refine ⟨h1, ?_, h3, ?_⟩
+    · intro x hx
+      simp only [List.mem_append, List.mem_singleton] at hx
+      rcases hx with hx | rfl
+      · exact h2 x hx
+      · simp [Open]
+    · intro u
+      have h4u := h4 u
+      simp only [occ_append, occ_cons, occ_nil]
+      by_cases hu : e.next = u
+      · subst hu; simp [ind] at h4u ⊢; omega
+      · simp only [ind, hu, if_false]
+        by_cases hlt : u < e.next
+        · simp [hlt] at h4u; simp [show u < e.next + 1 by omega]; omega
+        · simp [hlt] at h4u; simp [show ¬ u < e.next + 1 by omega]; omega
+  have hc' : e.closed = false := by simpa using hc
+  simp only [make, hc', Bool.false_eq_true, if_false]
   refine ⟨?_, h2, h3, ?_⟩
   · intro x hx
     rcases place_mem _ _ _ x hx with rfl | hx'
